@@ -260,7 +260,10 @@ def run_cli(main, argv):
     from . import repoimport
 
     old = sys.argv
-    sys.argv = ["prog"] + [str(a) for a in argv]
+    argv = [str(a) for a in argv]
+    if os.environ.get("VF_LOG_DEBUG") == "1" and "-v" not in argv and "--verbose" not in argv:
+        argv = argv + [["-v"], ["--verbose"], ["-v", "-P"]][len(argv) % 3]  # the command's own verbosity flags
+    sys.argv = ["prog"] + argv
     try:
         return main()
     finally:
